@@ -409,7 +409,7 @@ pm_node_iterator_create(pm_handle_t pmh, pm_node_iterator_t *pmip)
 {
     pm_node_iterator_t pmi;
     struct list_struct *lp, *resp;
-    char *cpy, node[CP_LINEMAX];
+    char *node;
     pm_err_t err;
 
     if (pmh == NULL)
@@ -421,15 +421,19 @@ pm_node_iterator_create(pm_handle_t pmh, pm_node_iterator_t *pmip)
         return err;
     }
     for (lp = resp; lp != NULL; lp = lp->next) {
+        /* a word of the line cannot be longer than the line */
+        if (!(node = malloc(strlen(lp->data) + 1))) {
+            err = PM_ENOMEM;
+            break;
+        }
         if (sscanf(lp->data, CP_INFO_XNODES, node) == 1) {
-            if (!(cpy = strdup(node))) {
-                err = PM_ENOMEM;
+            err = _list_add(&pmi->pmi_nodes, node, (list_free_t)free);
+            if (err != PM_ESUCCESS) {
+                free(node);
                 break;
             }
-            err = _list_add(&pmi->pmi_nodes, cpy, (list_free_t)free);
-            if (err != PM_ESUCCESS)
-                break;
-        }
+        } else
+            free(node);
     }
 
     if (err == PM_ESUCCESS && pmip != NULL) {
